@@ -429,6 +429,51 @@ theorem scale_affine (r : Region) (hr : r.Inv) (f : Factor) (ref : Option (List 
     · rw [he'] at h; cases h
     · rw [he] at h; cases h
 
+/-- **translation keeps every edge length** (either form) -/
+theorem translate_keeps_edges (r : Region) (hr : r.Inv) (v : List Rat) (b : Bool) (recv ret : Region)
+    (h : translateR r v b = .ok (recv, ret)) (a : Nat) (ha : a < r.ndim) :
+    ret.edge a = r.edge a := by
+  obtain ⟨h1, h2⟩ := translate_affine r hr v b recv ret h a ha
+  unfold Region.edge; rw [h1, h2]; ring
+
+/-- **scaling multiplies every edge length by `|s|`** — for negative factors too (the corners swap
+roles, the edge stays positive), for any reference point, in either form -/
+theorem scale_edges (r : Region) (hr : r.Inv) (f : Factor) (ref : Option (List Rat)) (b : Bool)
+    (recv ret : Region) (h : scaleR r f ref b = .ok (recv, ret)) (a : Nat) (ha : a < r.ndim) :
+    ret.edge a = |f.at a| * r.edge a := by
+  obtain ⟨h1, h2⟩ := scale_affine r hr f ref b recv ret h a ha
+  unfold Region.edge; rw [h1, h2, max_sub_min_eq_abs']
+  have : r.lo a < r.hi a := hr.2.2.2.2.2 a ha
+  rw [show ∀ R s l u : Rat, R + s * (l - R) - (R + s * (u - R)) = s * (l - u) from by intros; ring,
+    abs_mul, abs_sub_comm, abs_of_pos (by linarith : (0:Rat) < r.hi a - r.lo a)]
+
+/-- **the midpoint follows the affine map**: the centre of the scaled region is `R + s·(c − R)` for
+the old centre `c`, whatever the sign of `s` and wherever `R` lies -/
+theorem scale_midpoint (r : Region) (hr : r.Inv) (f : Factor) (ref : Option (List Rat)) (b : Bool)
+    (recv ret : Region) (h : scaleR r f ref b = .ok (recv, ret)) (a : Nat) (ha : a < r.ndim) :
+    (ret.lo a + ret.hi a) / 2 = (ref.getD r.center).getD a 0
+        + f.at a * ((r.lo a + r.hi a) / 2 - (ref.getD r.center).getD a 0) := by
+  obtain ⟨h1, h2⟩ := scale_affine r hr f ref b recv ret h a ha
+  rw [h1, h2, min_add_max]; ring
+
+/-- **without a reference point the region is scaled about its own centre**: the centre stays where
+it is, for every factor (negative ones included), in either form -/
+theorem scale_default_ref_keeps_centre (r : Region) (hr : r.Inv) (f : Factor) (b : Bool)
+    (recv ret : Region) (h : scaleR r f none b = .ok (recv, ret)) (a : Nat) (ha : a < r.ndim) :
+    (ret.lo a + ret.hi a) / 2 = (r.lo a + r.hi a) / 2 := by
+  have hm := scale_midpoint r hr f none b recv ret h a ha
+  have hc : r.center.getD a 0 = (r.lo a + r.hi a) / 2 := by
+    unfold Region.center; exact getD_tab _ _ _ _ ha
+  simp only [Option.getD_none] at hm
+  rw [hm, hc]; ring
+
+/-- non-vacuity (a test, not a theorem): a negative and a fractional factor about a far-away
+reference point are accepted in place and give edges 3·4 and ½·8 -/
+example : (match scaleR ⟨[-1, 0], [3, 8], ["x", "y"], ["m", "m"], 1/1000000000000⟩
+      (.vec [-3, 1/2]) (some [100, -7]) true with
+    | .ok (_, t) => decide (t.lo 0 = 391 ∧ t.hi 0 = 403 ∧ t.lo 1 = -7/2 ∧ t.hi 1 = 1/2)
+    | .error _ => false) = true := by decide +kernel
+
 /-- a zero factor on any axis is rejected by both forms -/
 theorem zero_factor_rejected (r : Region) (f : Factor) (ref : Option (List Rat)) (a : Nat) (ha : a < r.ndim)
     (hz : f.at a = 0) : (∃ e, scaleR r f ref true = .error e) ∧ (∃ e, scaleR r f ref false = .error e) := by
